@@ -53,8 +53,8 @@ func (o *Outcome) key(sorted bool) string {
 
 // realInput turns the harness input into the arguments of BalanceStrategy.Plan: the member metadata
 // map (user data serialised by the REAL AssignmentData, as consumerGroup.syncGroupRequest does; the
-// legacy V0 form through sarama's own encoder) and the topics map built from the subscriptions exactly
-// as consumerGroup.balance does.
+// legacy V0 form through sarama's own encoder) and the partitions of the subscribed topics as the
+// leader's client reports them (consumerGroup.balance itself is run on these, see RunPlan).
 //
 // order > 0 selects the pseudo-random order in which the members are inserted into the map and in which
 // each subscription list is written (0: sorted): Go iterates small maps in insertion order from a
@@ -132,7 +132,16 @@ func RunPlan(in *Input, order int) (out Outcome, engineErr error) {
 				out.Panic = fmt.Sprintf("%v @ %s", r, where)
 			}
 		}()
-		plan, err := st.Plan(members, topics)
+		// the leader's whole planning step (consumerGroup.balance), on a cluster where partition 0 of every topic with more
+		// than one partition is going through a leader election: it exists, so it is planned like the others
+		writable := make(map[string][]int32, len(topics))
+		for t, l := range topics {
+			writable[t] = l
+			if len(l) > 1 {
+				writable[t] = l[1:]
+			}
+		}
+		plan, err := sarama.VerifGroupBalance(st, members, topics, writable)
 		if err != nil {
 			out.Err = err.Error()
 			return
